@@ -397,6 +397,19 @@ fn run_case(sets: &[InputSet], c: &Case) -> CaseResult {
         findings.extend(f1);
         runs.push((c.spelling, r1));
     }
+    // A finding observed while a fault was injected may have nothing to do with that fault: re-run the case without
+    // it, and if the same class of finding appears there, report it under the fault-free key (one defect, one key).
+    if c.fault.is_some() && !findings.is_empty() && findings.iter().any(|f| f.key.contains("fault=")) {
+        let mut c2 = c.clone();
+        c2.fault = None;
+        let plain = run_case(sets, &c2);
+        for f in &mut findings {
+            if let Some(g) = plain.findings.iter().find(|g| g.class == f.class || (f.class == "wrong-bytes-after-fault" && g.class == "wrong-bytes")) {
+                f.key = g.key.clone();
+                f.class = g.class.clone();
+            }
+        }
+    }
     CaseResult { findings, runs, expected }
 }
 
